@@ -489,9 +489,63 @@ class MotionGen(object):
                                    ("ExcludeRegion", " disable "), ("ExcludeRegion", "enable x"),
                                    ("ExcludeRegion", "status"), ("ExcludeRegion", "disabled"),
                                    ("ExcludeRegion", ""), ("pause", ""),
-                                   ("excluderegion", "disable")])
+                                   ("excluderegion", "disable"), ("ExcludeRegion", "OFF"),
+                                   ("ExcludeRegion", "Disable"), ("ExcludeRegion", "ENABLE"),
+                                   ("ExcludeRegion", "On")])
         streaming = rng.random() < 0.08
         self.steps.append(("at", cmd, par, streaming))
+
+    def act_clip_arc(self):
+        """
+        An arc that passes deep through a rectangular region but starts and ends outside of it
+        (classification "clip": some sampled point is certainly inside, the end point is not).
+        """
+        rng = self.rng
+        gh = self.ghost
+        rects = [r for r in self.regions if r["t"] == "rect" and r["x2"] - r["x1"] >= 6 * G_PER_MM
+                 and r["y2"] - r["y1"] >= 6 * G_PER_MM]
+        if not rects or gh.inch or not gh.abs or any(gh.off[a] for a in "XY") or self.cleanMode:
+            return
+        if self.excluded(gh.p["X"], gh.p["Y"]):
+            return
+        reg = rng.choice(rects)
+        for _ in range(30):
+            qx = rng.uniform(reg["x1"] + 2.2 * G_PER_MM, reg["x2"] - 2.2 * G_PER_MM)
+            qy = rng.uniform(reg["y1"] + 2.2 * G_PER_MM, reg["y2"] - 2.2 * G_PER_MM)
+            size = max(reg["x2"] - reg["x1"], reg["y2"] - reg["y1"])
+            radius = rng.uniform(size * 0.8 + 3 * G_PER_MM, 80 * G_PER_MM)
+            ang = rng.uniform(0, 2 * math.pi)
+            cx, cy = qx - radius * math.cos(ang), qy - radius * math.sin(ang)
+            half = rng.uniform(0.9, 1.4)
+            clockwise = rng.random() < 0.5
+            a0, a1 = (ang + half, ang - half) if clockwise else (ang - half, ang + half)
+            sx, sy = int(round(cx + radius * math.cos(a0))), int(round(cy + radius * math.sin(a0)))
+            ex, ey = int(round(cx + radius * math.cos(a1))), int(round(cy + radius * math.sin(a1)))
+            ok = True
+            for px, py in ((sx, sy), (ex, ey)):
+                if not (0 <= px <= BED and 0 <= py <= BED) or self.excluded(px, py) or \
+                        self.min_border_distance(px, py) < G_PER_MM or not self.disc_safe(px, py):
+                    ok = False
+            if not ok:
+                continue
+            # the rest of the arc must stay clear of every OTHER region (bounding box test)
+            box = (cx - radius, cy - radius, cx + radius, cy + radius)
+            others = [r for r in self.regions if r is not reg]
+            if any(not (box[2] + 75 < region_bbox(r)[0] or box[0] - 75 > region_bbox(r)[2]
+                        or box[3] + 75 < region_bbox(r)[1] or box[1] - 75 > region_bbox(r)[3])
+                   for r in others):
+                continue
+            self.emit("G1 X%s Y%s" % (fmt_mm(sx), fmt_mm(sy)))
+            icx, icy = round((cx - sx) * 0.02, 4), round((cy - sy) * 0.02, 4)
+            self.emit("%s X%s Y%s I%s J%s" % ("G2" if clockwise else "G3", fmt_mm(ex), fmt_mm(ey),
+                                              repr(icx), repr(icy)), {"cls": "clip"})
+            gh.p["X"], gh.p["Y"] = ex, ey
+            gh.exact["X"] = gh.exact["Y"] = True
+            if rng.random() < 0.6:
+                tz = gh.p["Z"] + rng.choice([10, 25, -10]) if gh.p["Z"] >= 10 else gh.p["Z"] + 10
+                wtxt, gh.p["Z"] = self.word("Z", tz)
+                self.emit("G1 " + wtxt)
+            return
 
     def act_off_on(self):
         """Exclusion switched off, some motion (arcs, relative or single-axis moves), on again."""
@@ -597,7 +651,7 @@ class MotionGen(object):
         codes = list(self.cfg["xg"].keys()) or ["M204"]
         code = rng.choice(codes)
         letters = rng.sample(["P", "S", "T", "R", "K"], rng.randint(1, 3))
-        words = [l + str(rng.choice([1, 5, 50, 500, 1000, 1250])) for l in letters]
+        words = [l + str(rng.choice([0, 0, 1, 5, 50, 500, 1000, 1250, "0.5"])) for l in letters]
         self.emit(code + " " + " ".join(words))
 
     def act_other(self):
@@ -712,6 +766,7 @@ class MotionGen(object):
             "escope": 0.3 if self.outOfScope else 0.0,
             "offon": 1.0 if (self.useAt and not self.cleanMode) else 0.0,
             "shadow": 0.0 if self.cleanMode in ("noregions", "disabled") else 0.8,
+            "cliparc": 1.2 if self.useArcs else 0.0,
             "roundtrip": 0.0 if self.cleanMode else (1.5 if self.tiny else
                                                      (0.3 if self.useRel else 0.0)),
         }
@@ -743,6 +798,8 @@ class MotionGen(object):
                 self.act_rel_roundtrip()
             elif name == "shadow":
                 self.act_shadow()
+            elif name == "cliparc":
+                self.act_clip_arc()
             elif name == "deferred":
                 self.act_deferred()
             elif name == "other":
